@@ -4,7 +4,7 @@ from __future__ import annotations
 import ast
 from typing import List, Optional
 
-from .. import wire
+from .. import wire, paths
 from ..model import canon_src, norm_text, AnchorMissing, FuncInfo
 from ..controls import Control
 from ..mutate import in_func
@@ -30,36 +30,43 @@ def dispatch_rule(ctx, p):
     if r is None:
         raise AnchorMissing("AbstractMaker.result")
     want = {"Grid2D": "via_grid_2d", "Grid2DIrregular": "via_grid_2d_irr", "Grid1D": "via_grid_1d"}
+    # decided on the name-free path summaries (sa/paths.py): per path, the isinstance tests that hold and what is returned
     got = {}
-    for ret in wire.returns_of(r):
-        br = wire.enclosing_branches(r, ret)
-        v = ret.value
+    PS = paths.returns(paths.path_summaries(r) or [])
+    kinds = ("Grid2D", "Grid2DIrregular", "Grid1D")
+    okd = bool(PS)
+    for q in PS:
+        v = q.value
         vargs = (list(v.args) + [k.value for k in v.keywords]) if isinstance(v, ast.Call) else []
-        if isinstance(v, ast.Call) and isinstance(v.func, ast.Attribute) and norm_text(v.func.value) == "self" and len(vargs) == 1 and norm_text(vargs[0]) == "self.evaluate_func":
-            tests = [norm_text(i.test) for i, t in br if t]
-            for t in tests:
-                if t.startswith("isinstance(self.grid, ") and t.endswith(")"):
-                    got[t[len("isinstance(self.grid, "):-1]] = v.func.attr
-        elif norm_text(v) == "self.evaluate_func":
+        holds = [k for k in kinds if q.holds(f"isinstance(self.grid, {k})") is True]
+        if isinstance(v, ast.Call) and isinstance(v.func, ast.Attribute) and paths.ptext(v.func.value) == "self" and len(vargs) == 1 and paths.ptext(vargs[0]) == "self.evaluate_func" and len(holds) == 1:
+            # the first test that holds selects the converter: every earlier kind must have been excluded on this path
+            earlier = kinds[:kinds.index(holds[0])]
+            got[holds[0]] = v.func.attr if all(q.holds(f"isinstance(self.grid, {k})") is False for k in earlier) else "?"
+        elif paths.ptext(v) == "self.evaluate_func" and not holds and all(q.holds(f"isinstance(self.grid, {k})") is False for k in kinds):
             got["<other>"] = "plain"
-    ctx.ob(rule, r.key, {k: v for k, v in got.items() if k != "<other>"} == want and got.get("<other>") == "plain", where=r, node=r.node, construct=str(got),
+        else:
+            okd = False
+            got[f"<unexpected {q.text[:40]}>"] = str(q.conds)[:80]
+    ctx.ob(rule, r.key, okd and {k: v for k, v in got.items() if k != "<other>"} == want and got.get("<other>") == "plain", where=r, node=r.node, construct=str(got),
            message="the result must dispatch on exactly Grid2D / Grid2DIrregular / Grid1D to via_grid_2d / via_grid_2d_irr / via_grid_1d with the evaluated function result passed untouched, and return the plain result otherwise")
     e = c.lookup("evaluate_func")
     if e is None:
         raise AnchorMissing("AbstractMaker.evaluate_func")
+    PS = paths.returns(paths.path_summaries(e) or [])
     calls = [cc for cc in e.calls() if norm_text(cc.func) == "self.func"]
-    ok = len(calls) == 2
+    ok = bool(PS)
     det = []
-    for cc in calls:
-        br = wire.enclosing_branches(e, cc)
-        args = [norm_text(a) for a in cc.args]
-        det.append((args[:2], [(norm_text(i.test), t) for i, t in br]))
-        if br and br[0][1] and norm_text(br[0][0].test) == "isinstance(self.grid, Grid1D)":
-            src = [norm_text(n.value) for n in e.body_nodes() if isinstance(n, ast.Assign) and isinstance(n.targets[0], ast.Name) and len(args) > 1 and n.targets[0].id == args[1]]
-            ok = ok and args[0] == "self.obj" and src == ["self.grid.grid_2d_radial_projected_from()"]
-        else:
-            ok = ok and args[:2] == ["self.obj", "self.grid"]
-        ok = ok and norm_text(cc).endswith("*self.args, **self.kwargs)")
+    seen = set()
+    for q in PS:
+        v = q.value
+        is1d = q.holds("isinstance(self.grid, Grid1D)")
+        seen.add(is1d)
+        args = [paths.ptext(a) for a in v.args] if isinstance(v, ast.Call) else []
+        det.append((args[:2], q.conds))
+        want_grid = "self.grid.grid_2d_radial_projected_from()" if is1d is True else "self.grid"
+        ok = ok and isinstance(v, ast.Call) and paths.ptext(v.func) == "self.func" and is1d is not None and args[:2] == ["self.obj", want_grid] and q.text.endswith("*self.args,**self.kwargs)") and len(v.args) == 3 and len(v.keywords) == 1
+    ok = ok and seen == {True, False}
     ctx.ob(rule, e.key, ok, where=e, node=calls[0] if calls else e.node, construct=str(det), message="the user function must receive the input grid itself (its radial projection for a Grid1D), the object and the caller's extra arguments")
     ms = c.lookup("mask")
     rets = wire.returns_of(ms) if ms else []
@@ -195,43 +202,50 @@ def radial_rule(ctx, p):
     bad = [(b, n) for b, n in writes if b in alias]
     ctx.ob(rule, w.key + ":no-input-write", not bad, where=w, node=bad[0][1] if bad else w.node, construct=norm_text(bad[0][1])[:120] if bad else f"aliases of the input grid: {sorted(alias)}",
            message="the decorator writes into the caller's grid (or a view of it); coordinates must be moved on a new array")
-    # scale factor
-    wh = [c for c in w.calls() if norm_text(c.func) in ("np.where", "numpy.where")]
-    ok = len(wh) == 1 and len(wh[0].args) == 3
-    det = ""
-    if ok:
-        cnd, a, b = wh[0].args
-        det = norm_text(wh[0])
-        # radius < minimum, in either spelling (r < m  or  m > r)
-        radii = None
-        if isinstance(cnd, ast.Compare) and len(cnd.ops) == 1:
-            lo, hi = (cnd.left, cnd.comparators[0]) if isinstance(cnd.ops[0], ast.Lt) else ((cnd.comparators[0], cnd.left) if isinstance(cnd.ops[0], ast.Gt) else (None, None))
-            if lo is not None and norm_text(hi) == "grid_radial_minimum":
-                radii = norm_text(lo)
-        ok = radii is not None and norm_text(a) == f"grid_radial_minimum / {radii}" and norm_text(b) in ("1.0", "1")
-        src = [norm_text(n.value) for n in w.body_nodes() if isinstance(n, ast.Assign) and norm_text(n.targets[0]) == radii]
-        ok = ok and src == ["obj.radial_grid_from(grid=grid)"]
-    ctx.ob(rule, w.key + ":factor", ok, where=w, node=wh[0] if wh else w.node, construct=det,
-           message="rows with radius < minimum must be scaled by minimum / radius and every other row by the literal 1.0, the radius being the profile's own radial distance of the input grid")
-    scale = None
-    for n in w.body_nodes():
-        if isinstance(n, ast.Assign) and wh and n.value is wh[0]:
-            scale = norm_text(n.targets[0])
-    mul = [c for c in w.calls() if norm_text(c.func) in ("np.multiply", "numpy.multiply")]
-    okm = len(mul) == 1 and [norm_text(a) for a in mul[0].args] == ["grid", f"{scale}[:, None]"] and wire.kw(mul[0]).get("out") is None
-    ctx.ob(rule, w.key + ":apply", okm, where=w, node=mul[0] if mul else w.node, construct=norm_text(mul[0]) if mul else "", message="the scale must be applied row by row to the input grid into a new array")
-    moved = None
-    for n in w.body_nodes():
-        if isinstance(n, ast.Assign) and mul and n.value is mul[0]:
-            moved = norm_text(n.targets[0])
-    calls = [c for c in w.calls() if isinstance(c.func, ast.Name) and c.func.id == "func"]
-    okf = len(calls) == 1 and [norm_text(a) for a in calls[0].args[:2]] == ["obj", moved]
-    ctx.ob(rule, w.key + ":evaluate", okf, where=w, node=calls[0] if calls else w.node, construct=norm_text(calls[0]) if calls else "", message="the function must be evaluated on the relocated grid")
-    # the relocated grid keeps the structure of the input (with_new_array) and the minimum comes from the per-profile config entry
-    wn = [c for c in w.calls() if isinstance(c.func, ast.Attribute) and c.func.attr == "with_new_array" and norm_text(c.func.value) == "grid"]
-    ctx.ob(rule, w.key + ":structure", len(wn) == 1 and norm_text(wn[0].args[0] if wn[0].args else wire.kw(wn[0]).get("array")) == moved, where=w, node=wn[0] if wn else w.node, construct=norm_text(wn[0]) if wn else "", message="a structured grid must be rebuilt around the moved coordinates (same mask)")
-    cfg = [norm_text(n.value).replace('"', "'") for n in w.body_nodes() if isinstance(n, ast.Assign) and norm_text(n.targets[0]) == "grid_radial_minimum"]
-    ctx.ob(rule, w.key + ":config", cfg == ["conf.instance['grids']['radial_minimum']['radial_minimum'][obj.__class__.__name__]"], where=w, node=w.node, construct=str(cfg), message="the minimum must be the configured value for the profile's class")
+    # what the decorated function finally receives, with every local substituted (sa/paths.py): func(obj, <moved grid>, *args, **kwargs) where
+    # <moved grid> = [grid.with_new_array](np.multiply(grid, np.where(R < MIN, MIN / R, 1.0)[:, None])) with NaNs set to MIN
+    MIN = "conf.instance['grids']['radial_minimum']['radial_minimum'][obj.__class__.__name__]"
+    R = "obj.radial_grid_from(grid=grid)"
+    PS = paths.path_summaries(w, project=p) or []
+    rets = paths.returns(PS)
+    res = {"factor": [], "apply": [], "evaluate": [], "structure": [], "config": []}
+    for q in rets:
+        v = q.value
+        okf = isinstance(v, ast.Call) and paths.ptext(v.func) == "func" and len(v.args) >= 2 and paths.ptext(v.args[0]) == "obj" and q.text.endswith("*args,**kwargs)")
+        moved = v.args[1] if okf else None
+        sp = paths.store_parts(moved) if moved is not None else None
+        if sp is not None:   # the NaN repair: moved[isnan(moved)] = MIN
+            base = sp[0]
+            okf = okf and paths.ptext(sp[1]) in (f"np.isnan(np.array({paths.ptext(base)}))", f"np.isnan({paths.ptext(base)})") and paths.ptext(sp[2]) == MIN
+            moved = base
+        res["evaluate"].append((okf, q, q.text[:120]))
+        structured = q.holds("hasattr(grid, 'with_new_array')")
+        inner = moved
+        if isinstance(moved, ast.Call) and isinstance(moved.func, ast.Attribute) and moved.func.attr == "with_new_array":
+            oks = structured is True and paths.ptext(moved.func.value) == "grid" and len(moved.args) + len(moved.keywords) == 1
+            inner = (moved.args + [k.value for k in moved.keywords])[0] if oks else None
+            res["structure"].append((oks, q, paths.ptext(moved)[:100]))
+        else:
+            res["structure"].append((structured is False, q, f"no with_new_array under hasattr = {structured}"))
+        okm = isinstance(inner, ast.Call) and paths.ptext(inner.func) in ("np.multiply", "numpy.multiply") and len(inner.args) == 2 and not inner.keywords and paths.ptext(inner.args[0]) == "grid" \
+            and isinstance(inner.args[1], ast.Subscript) and paths.ptext(inner.args[1].slice) in (":,None", "(:,None)", "(:,np.newaxis)")
+        res["apply"].append((okm, q, paths.ptext(inner)[:100] if inner is not None else "missing"))
+        scale = inner.args[1].value if okm else None
+        okw = isinstance(scale, ast.Call) and paths.ptext(scale.func) in ("np.where", "numpy.where") and len(scale.args) == 3 and not scale.keywords
+        if okw:
+            cnd, a_, b_ = (paths.ptext(x) for x in scale.args)
+            radius = cnd[:-len("<" + MIN)] if cnd.endswith("<" + MIN) else None
+            res["config"].append((radius is not None, q, cnd[:140]))
+            okw = radius == R and a_ == f"{MIN}/{R}" and b_ in ("1.0", "1")
+        res["factor"].append((okw, q, paths.ptext(scale)[:160] if scale is not None else "missing"))
+    msgs = {"factor": "rows with radius < minimum must be scaled by minimum / radius and every other row by the literal 1.0, the radius being the profile's own radial distance of the input grid",
+            "apply": "the scale must be applied row by row to the input grid into a new array",
+            "evaluate": "the function must be evaluated on the relocated grid",
+            "structure": "a structured grid must be rebuilt around the moved coordinates (same mask)",
+            "config": "the minimum must be the configured value for the profile's class"}
+    for name, items in res.items():
+        badi = [x for x in items if not x[0]]
+        ctx.ob(rule, w.key + ":" + name, bool(items) and not badi and len(rets) == 2, where=w, node=(badi[0][1].node if badi else None) or w.node, construct=(badi[0][2] if badi else (items[0][2] if items else "no returning path")), message=msgs[name])
 
 
 def transform_rule(ctx, p):
